@@ -5,7 +5,7 @@
    b58_protected_shape, b58_roundtrip53, b58_protected_shape_ec, curve_mul_law, pub_length33: Model/Bip38.v). *)
 From Coq Require Import ZArith List Bool.
 From Coq.Strings Require Import Byte.
-From Verif Require Import Lib.Bytes Model.Bip38 Proofs.Bip38 Proofs.Bip38Ec.
+From Verif Require Import Lib.Bytes Model.Bip38 Proofs.Bip38 Proofs.Bip38Ec Proofs.Bip38Spec.
 Import ListNotations.
 Open Scope Z_scope.
 
@@ -88,6 +88,62 @@ Theorem bip38_intermediate_is_spec :
   spec_intermediate P utf8 nfc scrypt H b58e pubser pw ls salt = Some r.
 Proof. exact intermediate_is_spec. Qed.
 
+(* --- Key(s, password=pw, network) agrees with the DECRYPTION procedure of the BIP text, both modes: a key comes out
+       exactly when the BIP's own steps (scrypt on the passphrase, AES, xor, EC multiplication, address-hash check)
+       yield it.  So a ciphertext produced by ANY conforming implementation opens with its passphrase, and nothing
+       opens that the BIP would refuse.  Guards: the passphrase is in NFC form (class passphrase_not_nfc); the string
+       has the protected shape; its flag byte is one the BIP defines (the library is laxer: plain_flag20_laxer below);
+       an EC-multiplied key is checked against address version 00 (class ec_foreign_network). --- *)
+Theorem bip38_decrypt_is_spec :
+  forall P utf8 nfc scrypt aes_dec H H160 b58e b58d pubser,
+  aes_block_length aes_dec -> scrypt_length scrypt ->
+  forall pfx s pw k c, utf8 (nfc pw) = utf8 pw -> lib_is_protected s = true ->
+  (forall d, b58d s = Some d -> bip38_flag_defined d = true /\ (is_ec_key d = true -> pfx = [x00])) ->
+  (lib_key_decrypt P utf8 scrypt aes_dec H H160 b58e b58d pubser pfx s pw = KOk k c <->
+   spec_decrypt P utf8 nfc scrypt aes_dec H H160 b58e b58d pubser pfx s pw = Some (k, c)).
+Proof. exact decrypt_is_spec. Qed.
+
+(* --- the passphrase ARGUMENT (a str or a bytes object) -> scrypt input: exactly the bytes the BIP prescribes
+       (UTF-8 of the text, a bytes object as it is; no un-hexlify, trimming, case folding, truncation) --- *)
+Theorem passphrase_bytes_are_spec :
+  forall T (utf8 : T -> bytes) nfc a, nfc_stable utf8 nfc a -> arg_bytes utf8 a = spec_pw_bytes utf8 nfc a.
+Proof. exact arg_is_spec. Qed.
+
+(* two texts reach scrypt as the same bytes only if they are the same text (UTF-8 being injective) *)
+Theorem passphrase_no_conflation :
+  forall T (utf8 : T -> bytes), (forall a b, utf8 a = utf8 b -> a = b) ->
+  forall a b : T, arg_bytes utf8 (PStr a) = arg_bytes utf8 (PStr b) -> a = b.
+Proof. exact arg_injective. Qed.
+
+(* Key.encrypt / Key(enc, password=) depend on the argument only through the passphrase it denotes: arguments that are
+   the same passphrase per the BIP give the same results ... *)
+Theorem same_passphrase_same_key :
+  forall T utf8 nfc scrypt aes_enc aes_dec H H160 b58e b58d pubser (a b : pyarg T),
+  nfc_stable utf8 nfc a -> nfc_stable utf8 nfc b -> same_passphrase utf8 nfc a b ->
+  (forall pfx c k, lib_key_encrypt (pyarg T) (arg_bytes utf8) scrypt aes_enc H H160 b58e pubser pfx c k a =
+                   lib_key_encrypt (pyarg T) (arg_bytes utf8) scrypt aes_enc H H160 b58e pubser pfx c k b) /\
+  (forall pfx s, lib_key_decrypt (pyarg T) (arg_bytes utf8) scrypt aes_dec H H160 b58e b58d pubser pfx s a =
+                 lib_key_decrypt (pyarg T) (arg_bytes utf8) scrypt aes_dec H H160 b58e b58d pubser pfx s b).
+Proof. exact same_passphrase_same_result. Qed.
+
+(* ... in particular a str and the bytes object holding its UTF-8 encoding are interchangeable *)
+Theorem passphrase_str_or_bytes :
+  forall T utf8 scrypt aes_enc aes_dec H H160 b58e b58d pubser (t : T),
+  (forall pfx c k, lib_key_encrypt (pyarg T) (arg_bytes utf8) scrypt aes_enc H H160 b58e pubser pfx c k (PStr t) =
+                   lib_key_encrypt (pyarg T) (arg_bytes utf8) scrypt aes_enc H H160 b58e pubser pfx c k (PBytes (utf8 t))) /\
+  (forall pfx s, lib_key_decrypt (pyarg T) (arg_bytes utf8) scrypt aes_dec H H160 b58e b58d pubser pfx s (PStr t) =
+                 lib_key_decrypt (pyarg T) (arg_bytes utf8) scrypt aes_dec H H160 b58e b58d pubser pfx s (PBytes (utf8 t))).
+Proof. exact str_or_bytes. Qed.
+
+(* Key.encrypt on a str-or-bytes argument is the BIP's encryption of the passphrase the argument denotes *)
+Theorem bip38_is_spec_arg :
+  forall T utf8 nfc scrypt aes_enc H H160 b58e pubser,
+  scrypt_length scrypt ->
+  forall pfx c k (a : pyarg T), nfc_stable utf8 nfc a ->
+  lib_key_encrypt (pyarg T) (arg_bytes utf8) scrypt aes_enc H H160 b58e pubser pfx c k a =
+  spec_encrypt (pyarg T) (arg_bytes utf8) (arg_nfc nfc) scrypt aes_enc H H160 b58e pubser pfx c k a.
+Proof. exact encrypt_is_spec_arg. Qed.
+
 (* --- entropy: which os.urandom draw each generating call consumes (repaired code, fixes/C15-1) --- *)
 Theorem fresh_entropy :
   forall ops, (forall o, In o ops -> op_explicit o = false) ->
@@ -137,6 +193,44 @@ Example passphrase_not_nfc_refuted :
   spec_encrypt bytes (fun p => p) (fun _ => [xc3; xa9]) toy_scrypt toy_aes toy_H toy_H toy_b58e toy_pub [x00] true 1 [x65; xcc; x81].
 Proof. vm_compute. discriminate. Qed.
 
+(* the premises of bip38_decrypt_is_spec are satisfiable and both sides return the key (toy oracles):
+   a key encrypted by the library model opens under the BIP's procedure and under Key(...) *)
+Example decrypt_is_spec_witness :
+  aes_block_length toy_aes /\ scrypt_length toy_scrypt /\
+  exists e d,
+  lib_key_encrypt bytes (fun p => p) toy_scrypt toy_aes toy_H toy_H toy_b58e toy_pub [x00] true 305419896 [x70; x77] = Some e /\
+  lib_is_protected e = true /\ toy_b58d e = Some d /\ bip38_flag_defined d = true /\ is_ec_key d = false /\
+  spec_decrypt bytes (fun p => p) (fun p => p) toy_scrypt toy_aes toy_H toy_H toy_b58e toy_b58d toy_pub [x00] e [x70; x77]
+    = Some (305419896, true) /\
+  lib_key_decrypt bytes (fun p => p) toy_scrypt toy_aes toy_H toy_H toy_b58e toy_b58d toy_pub [x00] e [x70; x77] = KOk 305419896 true /\
+  spec_decrypt bytes (fun p => p) (fun p => p) toy_scrypt toy_aes toy_H toy_H toy_b58e toy_b58d toy_pub [x00] e [x70; x78] = None.
+Proof.
+  split; [exact toy_aes_len|]. split; [exact toy_scrypt_len|].
+  eexists. eexists. split; [vm_compute; reflexivity|]. repeat split; vm_compute; reflexivity.
+Qed.
+
+(* outside the flag guard the library is LAXER than the BIP: plain-mode flag byte 20 (not defined by the BIP) is read as
+   "compressed" and the key is returned, while the BIP's procedure refuses the string *)
+Example plain_flag20_laxer :
+  exists a e,
+  lib_address toy_H toy_H toy_b58e toy_pub [x00] true 305419896 = Some a /\
+  e = lib_bip38_encrypt toy_scrypt toy_aes toy_H toy_b58e (be_bytes 32 305419896) a [x70; x77] x20 /\
+  lib_key_decrypt bytes (fun p => p) toy_scrypt toy_aes toy_H toy_H toy_b58e toy_b58d toy_pub [x00] e [x70; x77] = KOk 305419896 true /\
+  spec_decrypt bytes (fun p => p) (fun p => p) toy_scrypt toy_aes toy_H toy_H toy_b58e toy_b58d toy_pub [x00] e [x70; x77] = None.
+Proof. eexists. eexists. split; [vm_compute; reflexivity|]. split; [reflexivity|]. split; vm_compute; reflexivity. Qed.
+
+(* the passphrase arguments: a str and a bytes object that are the same passphrase, and two that are not
+   ('12' as text is 31 32; the byte 12 it would spell as hexadecimal is a different passphrase) *)
+Example passphrase_argument_witness :
+  same_passphrase (fun t : bytes => t) (fun t => t) (PStr [x31; x32]) (PBytes [x31; x32]) /\
+  ~ same_passphrase (fun t : bytes => t) (fun t => t) (PStr [x31; x32]) (PBytes [x12]) /\
+  nfc_stable (fun t : bytes => t) (fun t => t) (PStr [x31; x32]) /\
+  lib_key_encrypt (pyarg bytes) (arg_bytes (fun t => t)) toy_scrypt toy_aes toy_H toy_H toy_b58e toy_pub [x00] true 1 (PStr [x31; x32]) <>
+  lib_key_encrypt (pyarg bytes) (arg_bytes (fun t => t)) toy_scrypt toy_aes toy_H toy_H toy_b58e toy_pub [x00] true 1 (PBytes [x12]).
+Proof.
+  split; [reflexivity|]. split; [intros E; discriminate E|]. split; [reflexivity|]. vm_compute. discriminate.
+Qed.
+
 Print Assumptions bip38_roundtrip.
 Print Assumptions bip38_encrypt_total.
 Print Assumptions bip38_ec_roundtrip.
@@ -147,3 +241,9 @@ Print Assumptions bip38_intermediate_is_spec.
 Print Assumptions fresh_entropy.
 Print Assumptions fresh_entropy_mixed.
 Print Assumptions fresh_entropy_distinct.
+Print Assumptions bip38_decrypt_is_spec.
+Print Assumptions passphrase_bytes_are_spec.
+Print Assumptions passphrase_no_conflation.
+Print Assumptions same_passphrase_same_key.
+Print Assumptions passphrase_str_or_bytes.
+Print Assumptions bip38_is_spec_arg.
